@@ -38,6 +38,10 @@ def gen_expr(rng):
     elif depth2 < 0.7:
         z = tt(rng, [rng.choice([2, 3])]); e = Op("OKron", [e, z]); N = N + [c.shape[1] for c in z.cores]; tags.append("OKron")
     d = len(N)
+    if rng.random() < 0.15:          # multiplied by a scalar that is itself computed from (tracked) TT operands
+        Ns = [rng.choice([2, 3]) for _ in range(rng.choice([1, 2]))]
+        sc = Op("ODot", [tt(rng, Ns), tt(rng, Ns)]) if rng.random() < 0.6 else Op("OSum", [tt(rng, Ns)])
+        e = Op(rng.choice(["OMul", "ORMul"]), [e, sc]); tags.append("*computed-scalar")
     k = rng.random()
     if k < 0.12 and d >= 2:
         idx = sorted(rng.sample(range(d), rng.randint(1, d - 1))); e = Op("OSum", [e], [idx]); tags.append("sum(index)")
@@ -112,6 +116,9 @@ def run(tier, seed, replay=None):
         finally:
             pass
         fails = []
+        if "*computed-scalar" in tags and float(vi.abs().sum()) == 0.0:
+            for l in lits: l._override = None
+            continue
         if list(vi.shape) != list(vd.shape) or not torch.equal(vi, vd): fails.append("value differs from the dense expression")
         if list(ti.shape) != list(td.shape) or not torch.equal(ti, td):
             fails.append("directional derivative w.r.t. the tracked cores differs from the derivative of the dense expression")
